@@ -19,7 +19,7 @@ theorem ite_none_bind {α β : Type} (c : Bool) (x : Option α) (k : α → Opti
   cases c <;> rfl
 
 /-- unfold the interpreter on a literal layout / flatten a model reader -/
-syntax "binrw_norm" ("[" Lean.Parser.Tactic.simpLemma,* "]")? : tactic
+syntax "binrw_norm" ("[" Lean.Parser.Tactic.simpLemma,* "]")? (Lean.Parser.Tactic.location)? : tactic
 macro_rules
   | `(tactic| binrw_norm) => `(tactic| binrw_norm [])
   | `(tactic| binrw_norm [$extra,*]) => `(tactic| simp only [Layout.read, Layout.readFields, Field.read, Kind.read,
@@ -30,6 +30,14 @@ macro_rules
       Option.bind_some, Option.bind_none, Option.map_some, Option.map_none, Option.bind_map, Option.map_bind,
       Option.map_map, Function.comp_def, Nat.zero_sub, Option.bind_assoc, bind, Option.bind_eq_bind,
       require_bind_unit, ite_none_bind, $extra,*])
+  | `(tactic| binrw_norm [$extra,*] $loc:location) => `(tactic| simp only [Layout.read, Layout.readFields, Field.read, Kind.read,
+      readMagic, readPrim, Prim.width, Prim.signed, Kind.size, Layout.size, Layout.sizeFields, Field.size, Count.eval,
+      Value.validIn, Value.asCount, Value.bits, repeatN, via, Option.getD, skip,
+      List.drop_zero, List.nil_append, List.cons_append, List.length_cons, List.length_nil,
+      List.getElem?_cons_zero, List.getElem?_cons_succ,
+      Option.bind_some, Option.bind_none, Option.map_some, Option.map_none, Option.bind_map, Option.map_bind,
+      Option.map_map, Function.comp_def, Nat.zero_sub, Option.bind_assoc, bind, Option.bind_eq_bind,
+      require_bind_unit, ite_none_bind, $extra,*] $loc:location)
 
 /-! ### `normalize` preserves what is read -/
 
@@ -110,5 +118,37 @@ theorem Kind.read_array_struct_congr (e : Endian) (env : List Value) (n : Count)
     (h : G.normalizeAt e = E.normalizeAt e) (l : Bytes) :
     Kind.read e env (.array n (.struct G)) l = Kind.read e env (.array n (.struct E)) l := by
   simp only [Kind.read, Layout.read_congr e h]
+
+/-- a hand-written `count = n` list reader (`rdN`, built from the element reader `rd`) is `repeatN`
+of the layout's element reader `k` followed by the element projection — also when the projection
+fails (both sides are then `none`) -/
+theorem listReader_eq_repeatN {α : Type} (rd : Bytes → Option (α × Bytes))
+    (rdN : Nat → Bytes → Option (List α × Bytes)) (k : Bytes → Option (Value × Bytes)) (proj : Value → Option α)
+    (h0 : ∀ l, rdN 0 l = some ([], l))
+    (hS : ∀ n l, rdN (n + 1) l = (rd l).bind fun x => (rdN n x.2).bind fun xs => some (x.1 :: xs.1, xs.2))
+    (h : ∀ l, rd l = (k l).bind fun v => (proj v.1).map (·, v.2)) :
+    ∀ n l, rdN n l = (repeatN k n l).bind fun vs => (projAll proj vs.1).map (·, vs.2) := by
+  intro n
+  induction n with
+  | zero => intro l; rw [h0]; rfl
+  | succ n ih =>
+    intro l
+    rw [hS, h]
+    simp only [repeatN]
+    cases hk : k l with
+    | none => rfl
+    | some v =>
+      simp only [Option.bind_some]
+      cases hp : proj v.1 with
+      | none =>
+        simp only [Option.map_none, Option.bind_none]
+        cases repeatN k n v.2 <;> simp [projAll, hp]
+      | some a =>
+        simp only [Option.map_some, Option.bind_some, ih]
+        cases repeatN k n v.2 with
+        | none => rfl
+        | some vs =>
+          simp only [Option.bind_some, projAll, hp]
+          cases projAll proj vs.1 <;> rfl
 
 end Physis.Binrw
